@@ -1031,7 +1031,7 @@ def rule_fixtures(ctx):
     rule_param_mutation(pr, frepo, mods, "F", report=False, exceptions={})
     rule_module_state(pr, frepo, mods, "F", report=False, owners={})
     want = ["fixture:class-default Shared.things", "fixture:param-mutation mutates_argument", "fixture:param-mutation mutates_alias",
-            "fixture:module-state _seen", "fixture:module-state _registry", "fixture:mutable-default mutable_default"]
+            "fixture:module-state _seen", "fixture:module-state _registry", "fixture:mutable-default mutable_default", "fixture:retained _seen"]
     for w in want:
         if w not in pr.hits:
             raise AnalysisError("zero-count rule lost its positive fixture: %s not reported (the rule would pass vacuously)" % w)
@@ -1039,3 +1039,6 @@ def rule_fixtures(ctx):
     if "fixture:param-mutation copies_first" in pr.hits:
         raise AnalysisError("parameter-mutation rule fires on a function that copies its argument first (false alarm)")
     ctx.held(R, "silent on copies_first", "fixtures/fixpkg/bad.py")
+    if "fixture:retained _registry" in pr.hits:
+        raise AnalysisError("retained-argument rule fires on a table that only uses the argument as its key (false alarm)")
+    ctx.held(R, "silent on a key", "fixtures/fixpkg/bad.py")
